@@ -218,5 +218,107 @@ func familyBlocks() []fam {
 		}
 		fs = append(fs, fam{"deep", ps, []any{nil}, nil})
 	}
+	fs = append(fs, familyBlocks4()...)
+	return fs
+}
+
+// fourth wave: object construction, slices, recursive descent, serialisation, ordering natives
+func familyBlocks4() []fam {
+	var fs []fam
+	mixed := []any{3, "a", nil, []any{1}, map[string]any{"a": 1}, true, false, 1.5, -1, "B", []any{0}, map[string]any{}, 1, 1.0}
+	recs := []any{map[string]any{"a": 2, "b": 1}, map[string]any{"a": 1, "b": 2}, map[string]any{"a": 2, "b": 0}, map[string]any{"a": nil}, map[string]any{}, map[string]any{"a": []any{1}, "b": "x"}}
+	nested := map[string]any{"a": []any{1, map[string]any{"b": nil, "c": []any{}}}, "d": "s", "e": map[string]any{"f": 2.5, "g": map[string]any{}}}
+
+	// 9. object construction: generator keys and values (enumeration order), duplicate keys, shorthand forms,
+	//    non-string keys, errors and emptiness in key / value position
+	{
+		ps := []string{
+			"{a: 1}", "{a: (1, 2)}", "{a: (1, 2), b: (3, 4)}", "{(\"a\", \"b\"): 1}", "{(\"a\", \"b\"): (1, 2)}", "{a: (1, 2), (\"b\", \"c\"): (3, 4)}", "[{a: (1, 2), b: (3, 4), c: (5, 6)}] | length",
+			"{a: 1, a: 2}", "{a: 1, \"a\": 2, (\"a\"): 3}", "{a: (1, 2), a: (3, 4)}", "{(\"a\", \"a\"): (1, 2)}", "{a: 1, b: 2, a: 3} | keys", "{b: 1, a: 2} | keys_unsorted", "{b: 1, a: 2} | tojson", "{b: 1, a: 2} | to_entries",
+			"{a: empty}", "{(empty): 1}", "{a: 1, b: empty, c: 3}", "[{a: (1, empty, 2)}]", "{a: error(\"v\")}?", "try {a: error(\"v\")} catch .", "try {(error(\"k\")): 1} catch .", "try {a: (1, error(\"late\"))} catch .", "[{a: (1, error(\"late\"))}?]",
+			"try {(1): 2} catch \"K\"", "try {(null): 2} catch \"K\"", "try {([]): 2} catch \"K\"", "try {(.): 2} catch \"K\"", "{(.[]? | strings): 1}", "[{(.[]? | tostring): .}] | length", "try {(.[]?): 1} catch \"K\"", "{(tostring): .}",
+			"{a}", "{a, b}", "{a, b: 2}", "{\"a\"}?", "{$x}?", "1 as $x | {$x}", "1 as $x | 2 as $y | {$x, $y, z: ($x + $y)}", "1 as $x | {$x, x: 2}", "1 as $x | {x: 2, $x}", ". as $v | {$v}", "{\"a b\": 1}", "{\"a\\(1 + 1)\": 1}", "{\"\\(1, 2)\": (3, 4)}",
+			"{@base64 \"k\": 1}", "{@json \"\\(.)\": 1}?", "{if: 1, then: 2, reduce: 3, and: 4, or: 5, not: 6, def: 7, as: 8}", "{if: 1}.if", "{and: 1} | .and", "{a: 1}.a", "{a: {b: {c: 1}}}.a.b.c", "{a: [1, 2]}.a[1]", "{a: 1} | .b", "{a: (., .)}", "{a: .a?, b: .b?}",
+			"{a: 1} + {a: 2}", "{a: 1} + {b: 2} + {a: 3}", "{a: {b: 1}} * {a: {c: 2}}", "{a: {b: 1}} * {a: 2}", "{a: 1} * {a: {b: 2}}", "try ({a: 1} - {a: 1}) catch \"M\"", "{a: 1} == {\"a\": 1}", "{a: 1, b: 2} == {b: 2, a: 1}", "{a: 1} < {a: 2}", "{a: 2} < {b: 1}", "{} < {a: null}", "[{b: 1}, {a: 2}, {a: 1, b: 0}] | sort",
+			"{a: 1} | has(\"a\"), has(\"b\")", "{a: 1} | length", "{} | length", "{a: null} | .a // \"d\"", "{a: 1} | to_entries | from_entries", "{a: 1, b: 2} | with_entries(.value += 1)", "{a: 1, b: 2} | map_values(. + 1)", "{a: 1, b: 2} | map_values(empty)", "{a: 1, b: 2} | map(. + 1)", "{a: 1, b: 2} | [.[]]", "{a: 1, b: 2} | add", "{a: 1, b: null} | del(.b)", "{a: 1} | .b = 2 | keys",
+			"{a: 1} | .[\"a\"]", "{a: 1} | .[(\"a\", \"b\")]", "try ({a: 1} | .[0]) catch \"I\"", "{a: [1, 2, 3]} | .a[1:]", "{\"a\": 1, \"b\": 2} | [.a, .b]", "[{a: 1}, {a: 2}] | map(.a)", "[{a: 1}, {a: 2}] | .[].a", "[{a: 1}, {b: 2}] | map(has(\"a\"))", "[{a: 1}, {b: 2}] | add", "{} | .a.b.c", "{} | .a[0]?", "null | {a: .}",
+			"{(.a?, .b? | strings): 1}", "{a: .} | .a == .", ". as [$a, $b] | {$a, $b}?", ". as {a: $x} | {x: $x}?", "{a: 1} as {a: $x, b: $y} | [$x, $y]", "[{a: 1, b: 2}, {a: 3}] | .[] as {a: $x, b: $y} | {$x, $y}", "{a: (.[]? // 7)}", "{a: first(.[]?)}", "[limit(3; {a: (1, 2), b: (3, 4)})]", "first({a: (1, 2)})", "{a: 1} | path(.a)", "[{a: 1, b: {c: 2}} | paths]", "{a: [{b: 1}]} | [leaf_paths]",
+		}
+		fs = append(fs, fam{"object", ps, []any{map[string]any{"a": "k", "b": 2}, []any{"x", "y", 3}, "s", nil, []any{1, 2}}, nil})
+	}
+
+	// 10. slices and indices: generators and odd values in the bounds, strings (runes), null, negative and huge
+	//     bounds, fractional bounds, slices as paths
+	{
+		bounds := []string{"", "0", "1", "2", "-1", "-2", "10", "-10", "null", "1.5", "2.7", "(0, 1)", "(1, null)", "\"a\"", "[]", "{}", "true", "1e10", "-1e10", "nan", "infinite", "length", "(length - 1)"}
+		var ps []string
+		for i, lo := range bounds {
+			for j, hi := range bounds {
+				if lo == "" && hi == "" {
+					continue
+				}
+				if (i*7+j*3)%4 != 0 && !(i < 6 && j < 6) {
+					continue
+				}
+				ps = append(ps, fmt.Sprintf("try .[%s:%s] catch \"S\"", lo, hi))
+				if (i+j)%5 == 0 {
+					ps = append(ps, fmt.Sprintf("[.[%s:%s]?]", lo, hi), fmt.Sprintf("try path(.[%s:%s]) catch \"S\"", lo, hi), fmt.Sprintf("try (.[%s:%s] | length) catch \"S\"", lo, hi))
+				}
+			}
+		}
+		for _, b := range bounds[1:] {
+			ps = append(ps, fmt.Sprintf("try .[%s] catch \"I\"", b), fmt.Sprintf("[.[%s]?]", b), fmt.Sprintf("try path(.[%s]) catch \"I\"", b), fmt.Sprintf("try (.[%s] = 9) catch \"I\"", b), fmt.Sprintf("try del(.[%s]) catch \"I\"", b))
+		}
+		ps = append(ps,
+			".[1:][0]?", ".[1:][1:]?", ".[:-1][:-1]?", ".[-1:]?", ".[:1] + .[1:]?", "[.[1:]?, .[:1]?]", ".[1:] | length?", "[.[]?][1:]", "[.[]?] | .[1:3]", ".[2:1]?", ".[0:0]?", ".[:]?", ".[0:length]?", ".[length:]?", ".[(0, 1):(2, 3)]?", "[.[(0, 1):(2, 3)]?] | length",
+			".[1:] = [9]?", ".[:1] |= map(. + 1)?", "del(.[1:])?", "del(.[:1], .[2:])?", "path(.[1:2])?", "[paths]?", "getpath([{\"start\": 1, \"end\": 2}])?", "try getpath([{\"start\": 1}]) catch \"G\"", "try setpath([{\"start\": 0, \"end\": 1}]; [7]) catch \"G\"", "to_entries?", ".[1:] as [$a] | $a?",
+			"\"abcdef\" | .[1:3]", "\"abcdef\" | .[-2:]", "\"héllo 世界\" | .[1:4]", "\"héllo 世界\" | .[-2:]", "\"héllo 世界\" | [.[:1], .[1:2], .[6:]]", "\"abc\" | .[1:1]", "\"abc\" | .[5:]", "\"abc\" | .[:-5]", "try (\"abc\" | .[0]) catch \"I\"", "\"abc\" | .[1:] | .[1:]", "\"\" | .[0:1]", "\"abc\" | .[null:null]", "\"abc\" | .[1.2:2.8]",
+			"null | .[1:2]", "null | .[0]", "null | .[\"a\"]", "try (1 | .[0:1]) catch \"S\"", "try ({} | .[0:1]) catch \"S\"", "try (true | .[0]) catch \"I\"", "[.[]? | try .[0] catch \"I\"]", "[.[]? | try .[0:1] catch \"S\"]", "[.[]? | .[0]?]", ".[0][0]?", ".[0]?[0]?", ".[-1][-1]?", "try .[0][\"a\"] catch \"I\"", ".[\"a\"]?[0]?",
+			"first(.[]?), last(.[]?)", "[.[length - 1]?, .[-1]?]", "[limit(2; .[]?)] == .[:2]", "[.[]?] == .", ".[1:] == [.[]?][1:]", "indices(1)?", "index(\"b\")?", "[.[]? | numbers] | .[1:]", "[range(10)] | .[2:8] | .[1:-1]", "[range(10)] | .[-3:] , .[:3], .[3:-3]", "[range(5)] | .[1:] = [\"x\"]", "[range(5)] | .[1:3] |= reverse", "[range(5)] | del(.[1:3])", "[range(5)] | .[2:] |= []", "[range(5)] | [.[1:3], .[3:1]]")
+		fs = append(fs, fam{"slice", ps, []any{[]any{1, 2, 3, 4}, "héllo", []any{[]any{1, 2}, []any{3}}, nil, []any{}, map[string]any{"a": []any{5}}}, nil})
+	}
+
+	// 11. recursive descent: `..`, recurse/1/2, with updates, limits, paths, errors
+	{
+		ps := []string{
+			"[..]", "[..] | length", "[.. | numbers]", "[.. | scalars]", "[.. | arrays | length]", "[.. | objects | keys]", "[.. | select(type == \"null\")]", "[..?]", "[.. | .a?]", "[.. | .[0]?]", "first(..)", "last(..)", "[limit(3; ..)]", "first(.. | numbers)?", "[.. | strings | length]", "[..] == [recurse]", "[recurse(.[]?)] == [..]",
+			"[recurse(.a?)]", "[recurse(.[0]?)]", "[recurse(.[]?; . != null)]", "[recurse(.a?; type == \"object\")]", "[recurse(if type == \"number\" and . < 3 then . + 1 else empty end)]", "[recurse(if type == \"array\" then .[] else empty end)]", "[recurse(empty)]", "[recurse(error)]?", "try [recurse(error(\"r\"))] catch .", "[limit(5; recurse(.))]", "[limit(4; recurse([.]))] | length",
+			"[recurse(.[]?) | numbers] | add?", "[recurse | type]", "[path(..)]", "[path(..)] | length", "[paths] == [path(..)][1:]", "[path(.. | numbers)]", "[path(recurse(.a?))]", "[path(recurse(.[]?; . != null))]", "[getpath(path(..))] == [..]", "path(first(.. | numbers))?", "[path(limit(2; ..))]",
+			".. |= .", "[.. |= .] | length", "(.. | numbers) |= . + 1", "(.. | strings) |= ascii_upcase", "(.. | nulls) = 0", "[(.. | arrays) |= length]?", "(.. | select(type == \"boolean\")) |= not", "del(.. | nulls)?", "del(.. | numbers)?", "del(.. | select(. == []))?", "[.. | numbers] as $n | $n | add?", "reduce (.. | numbers) as $x (0; . + $x)", "[foreach (.. | scalars) as $x (0; . + 1)] | last?",
+			"to_entries? | ..", "[.. | tojson] | length", "[.. | tostring] | length", "any(..; . == null)", "all(..; . != \"zz\")", "[..] | map(type) | unique", "[..] | group_by(type) | map(length)", "[.. | select(type == \"object\") | length]", "[.. | select(type == \"array\" and length > 1)]", "walk(if type == \"number\" then . + 1 else . end)", "walk(if type == \"array\" then reverse else . end)", "walk(if type == \"object\" then del(.a?) else . end)?", "walk(.)", "[walk(numbers)]?", "walk(empty)?", "try walk(error(\"w\")) catch .",
+			"[leaf_paths]", "[leaf_paths | length]", "[paths(type == \"number\")]", "tostream | select(length == 2) | .[1]", "[tostream] | length", "fromstream(tostream)", "[. as $d | path(..) as $p | $d | getpath($p)] | length", "label $f | .. | if type == \"number\" then ., break $f else empty end", "[label $f | .. | if . == null then break $f else . end] | length", "env | type", "$ENV | type", "[env, $ENV] | map(type)", "env.__verif_unset__", "$ENV.__verif_unset__",
+		}
+		fs = append(fs, fam{"descent", ps, []any{nested, []any{1, []any{2, []any{3, nil}}, "s"}, map[string]any{"a": map[string]any{"a": map[string]any{"a": 1}}}, 2, nil, []any{[]any{}, map[string]any{}, []any{[]any{}}}, mixed}, nil})
+	}
+
+	// 12. serialisation round trips and string conversions
+	{
+		ps := []string{
+			"tojson", "tostring", "[.[]? | tojson]", "[.[]? | tostring]", "tojson | fromjson", "(tojson | fromjson) == .", "tojson | tojson", "tojson | tojson | fromjson | fromjson", "[.[]? | tojson | fromjson] == .", "tojson | length", "tojson | explode | length", "@json", "@text", "@json == tojson", "@text == tostring",
+			"[.[]? | tostring | tonumber?]", "[.[]? | tojson | tonumber?]", "[.[]? | numbers | tostring | tonumber] == [.[]? | numbers]", "[.[]? | strings | tonumber?]", "[.[]? | tonumber?]", "try tonumber catch \"N\"", "[.[]? | try tonumber catch \"N\"]", "[.[]? | toboolean?]?", "[.[]? | ascii?]?",
+			"\"1\" | fromjson", "\"[1, 2\" | fromjson?", "try (\"[1, 2\" | fromjson) catch \"J\"", "\"{\\\"a\\\": [1, {\\\"b\\\": null}]}\" | fromjson", "\"nan\" | fromjson?", "\"NaN\" | fromjson?", "\" 1 \" | fromjson?", "\"1 2\" | fromjson?", "\"\" | fromjson?", "\"null\" | fromjson", "\"\\\"s\\\"\" | fromjson", "\"1e2\" | fromjson", "\"100000000000000000000\" | fromjson", "\"-0\" | fromjson", "\"1.0\" | fromjson | tojson", "\"[1.10, 1e1]\" | fromjson | tojson",
+			"[1, [2], {\"a\": 3}] | tojson", "{\"a\": []} | tojson", "{\"b\": 1, \"a\": 2} | tojson", "\"\\u0000\\u001f\\\"\\\\/\" | tojson", "\"é世\\ud83d\\ude00\" | tojson", "\"\\t\\n\\r\\b\\f\" | tojson", "\"<&>'\" | tojson", "\"\\u007f\\u0080\" | tojson", "[\"a\\\"b\"] | tojson | fromjson", "1e1000 | tojson", "-1e1000 | tojson", "[nan] | tojson", "nan | tostring", "infinite | tostring", "[1, 1.0, 1.5, 100000000000000000000, 1e17, -0, 0.1] | map(tojson)", "[1, 1.0, 1.5] | tojson",
+			"tojson | test(\"^\\\\[\")?", "[.[]? | tojson | length]", "[.[]? | tostring | length]", "[.[]? | strings | tojson | fromjson] == [.[]? | strings]", "[.[]? | strings | explode | implode] == [.[]? | strings]", "[.[]? | strings | @base64 | @base64d]?", "[.[]? | strings | @uri]", "[.[]? | strings | @html]", "[.[]? | strings | @sh]", "[.[]? | strings | ascii_downcase, ascii_upcase]", "[.[]? | strings | ltrimstr(\"a\"), rtrimstr(\"a\")]", "[.[]? | strings | utf8bytelength]", "[.[]? | strings | length]", "[.[]? | strings | split(\"\")]", "[.[]? | strings | split(\",\")]", "[.[]? | strings | split(\"\") | join(\"\")] == [.[]? | strings]",
+			"[.[]? | strings | startswith(\"a\"), endswith(\"a\")]", "[.[]? | strings | indices(\"a\")]", "[.[]? | strings | index(\"a\"), rindex(\"a\")]", "[.[]? | strings | ascii_downcase | explode | map(select(. >= 97)) | implode]", "[.[]? | strings | . * 2]", "[.[]? | strings | . * 0]", "[.[]? | strings | . / \",\"]", "[.[]? | strings | trim, ltrim, rtrim]", "[.[]? | strings | tojson | tojson | length]", "join(\",\")?", "try join(\",\") catch \"J\"", "map(tostring) | join(\"-\")?", "[.[]? | arrays | join(\"\")]?", "@csv?", "@tsv?", "try @csv catch \"C\"", "[.[]? | arrays | @csv]?", "[.[]? | arrays | @tsv]?", "[.[]? | arrays | @sh]?", "@html", "@uri", "@base64", "[.[]? | @base64]", "[.[]? | @html]",
+			"implode?", "[.[]? | arrays | implode?]", "try ([1114112] | implode) catch \"U\"", "try ([-1] | implode) catch \"U\"", "[55296] | implode | explode", "[65, 128512, 233] | implode", "\"\\ud83d\" | explode?", "ltrimstr(\"\")?", "tostring | ltrimstr(\"[\")", "splits(\", \")?", "ascii(65)?", "\"a,b, c\" | split(\", \")", "\"a,b, c\" | split(\",\"; null)?", "\"abc\" | test(\"B\"; \"i\")?", "\"abc\" | sub(\"b\"; \"X\")?", "\"abc\" | [match(\".\"; \"g\").string]?", "\"a1b22\" | [scan(\"[0-9]+\")]?", "\"abc\" | capture(\"(?<x>b)\")?", "\"abc\" | gsub(\"\"; \"-\")?",
+		}
+		fs = append(fs, fam{"serial", ps, []any{mixed, []any{"a,b", "", "héllo 世界", "\xff\xfe", " x ", "10", "1e2", "abc", "A"}, "plain", 42, map[string]any{"k": []any{1, "v"}}, nil, []any{[]any{1, "a b", nil, true}, []any{"q\"r", "t\tu"}}}, nil})
+	}
+
+	// 13. ordering natives on mixed types: sort / group / unique / min / max (stability, jq's type order,
+	//     numbers compared by value across representations), and their _by forms with generators and errors
+	{
+		ps := []string{
+			"sort", "sort | map(type)", "sort == (sort | sort)", "sort | reverse", "reverse | sort", "sort_by(.)", "sort_by(type)", "sort_by(tostring)", "sort_by(tojson)", "sort_by(length?)", "sort_by(.a?)", "sort_by(.a?, .b?)", "sort_by(.b?, .a?)", "sort_by(.a?; .b?)?", "sort_by(-(.a? // 0))?", "sort_by(.[0]?)", "sort_by(null)", "sort_by(empty)", "sort_by(1, 2)",
+			"try sort_by(error(\"s\")) catch .", "sort_by(error)?", "try sort catch \"T\"", "[.[]? | try sort catch \"T\"]", "group_by(.)", "group_by(type)", "group_by(.a?)", "group_by(.a?, .b?)", "group_by(. == null)", "group_by(length?)", "group_by(empty)", "group_by(.a?) | map(length)", "group_by(type) | map(.[0] | type)", "try group_by(error(\"g\")) catch .",
+			"unique", "unique | length", "unique == (sort | unique)", "unique_by(type)", "unique_by(.a?)", "unique_by(length?)", "unique_by(tostring)", "unique_by(. == null)", "unique_by(empty)", "unique_by(.a?, .b?)", "[.[]? | type] | unique", "map(tojson) | unique | length", "try unique_by(error(\"u\")) catch .",
+			"min", "max", "[min, max]", "min_by(.a?)", "max_by(.a?)", "min_by(type)", "max_by(type)", "min_by(length?)", "max_by(length?)", "min_by(.a?, .b?)", "max_by(empty)", "min_by(tostring)", "[] | min, max", "[] | min_by(.a), max_by(.a)", "try min_by(error(\"m\")) catch .", "[min_by(.a?), max_by(.a?)] | map(.b?)", "map(numbers) | min, max", "map(strings) | min, max", "map(arrays) | min, max", "map(objects) | min, max",
+			"[.[]? | numbers] | sort", "[.[]? | numbers] | sort | map(tojson)", "[.[]? | numbers] | unique", "[.[]? | numbers] | group_by(.) | map(length)", "[.[]? | strings] | sort", "[.[]? | arrays] | sort", "[.[]? | objects] | sort", "[.[]? | booleans] | sort", "[.[]? | nulls] | sort", "[.[]? | select(type != \"object\")] | sort",
+			"[.[] as $x | .[] as $y | select($x < $y)] | length?", "[.[] as $x | .[] as $y | ($x == $y)] | map(select(.)) | length?", "[.[]? | . < 1]", "[.[]? | . <= null]", "[.[]? | . > \"a\"]", "[.[]? | . >= []]", "[.[]? | . == 1]", "[.[]? | . != 1.0]", "[.[]? | [.] < [1]]", "[.[]? | {a: .} < {a: 1}]", "[.[]? | numbers | . == 1, . < 1.5, . > -1]", "sort | [.[0], .[-1]]?", "sort_by(.) == sort", "group_by(.) | map(.[0]) == unique", "[limit(3; sort[])]?", "first(sort[])?", "sort | index(1)?", "sort | indices(1)?", "sort | bsearch(1)?", "sort | bsearch(\"zz\")?", "try bsearch(1) catch \"B\"",
+			"to_entries? | sort_by(.value) | map(.key)", "keys?", "keys_unsorted?", "[.[]? | keys?]", "map(keys?)", "transpose?", "flatten?", "flatten(1)?", "flatten(0)?", "try flatten(-1) catch \"F\"", "add?", "add(.[]? | numbers)?", "any", "all", "any(. == null)?", "all(type == \"number\")?", "map(select(. != null)) | sort | unique | length", "[.[]? | arrays | sort]", "[.[]? | arrays | min, max]", "[.[]? | objects | to_entries | sort_by(.key) | from_entries]", "map([., 1]) | sort | map(.[0]) == sort", "map({a: .}) | sort_by(.a) | map(.a) == sort", "map({a: ., b: 1}) | group_by(.b) | length", "map({a: .}) | unique_by(.a) | length == (unique | length)", "map({a: .}) | min_by(.a).a == min", "map({a: .}) | max_by(.a).a == max",
+			"contains([1])?", "inside([1, 2, 3])?", "[.[]? | contains(1)?]", "contains([])?", "contains({})?", "contains(\"a\")?", "[.[]? | strings | contains(\"a\")]", "[.[]? | arrays | contains([1])]", "[.[]? | objects | contains({a: 1})]", "index(1)?", "rindex(1)?", "indices(null)?", "indices([1])?", "has(0)?", "has(100)?", "[.[]? | has(\"a\")?]", "[0, 1 | in([5])]", "[\"a\" | in({a: 1})]", "[.[]? | IN(1, \"a\")]", "IN(.[]?; 1, null)", "[.[]? | IN([1], {})]", "any(.[]?; IN(1))", "first(.[]? | select(IN(null)))?", "[splits(\"a\")?]", "ascii?", "@text | length",
+		}
+		fs = append(fs, fam{"order", ps, []any{mixed, recs, []any{1, 1.0, 2, 1.5, -0.0, 0, 100000000000000000000.0, 3}, []any{[]any{2, 1}, []any{1, 2}, []any{1}, []any{}, []any{1, nil}}, []any{"b", "a", "B", "", "ab", "é"}, []any{}, "str", nil, map[string]any{"b": 2, "a": 1}}, nil})
+	}
 	return fs
 }
